@@ -28,13 +28,13 @@ def sig(c, r):
 
 APP_ARGS_QUICK = [
     ("sq-5-2", ["--mesh", "{data}/unit-square-quad.xml", "--level", "5", "2", "--problem", "sin"], [1, 2, 3, 4, 6, 8]),
-    ("sq-ml", ["--mesh", "{data}/unit-square-quad.xml", "--level", "5", "3:2", "2", "--problem", "sin"], [4]),
+    ("sq-ml", ["--mesh", "{data}/unit-square-quad.xml", "--level", "5", "3:2", "2", "--problem", "sin"], [4, 6]),
     ("lshape-3-1", ["--mesh", "{data}/l-shape-quad.xml", "--level", "3", "1", "--problem", "exp"], [1, 2, 3, 5]),
 ]
 APP_ARGS_THOROUGH = APP_ARGS_QUICK + [
     ("sq-6-2", ["--mesh", "{data}/unit-square-quad.xml", "--level", "6", "2", "--problem", "sin"], [1, 5, 7, 12, 16]),
     ("flow-3-0", ["--mesh", "{data}/flowbench_c2d_03_quad_64.xml", "--level", "2", "0", "--problem", "cos"], [1, 2, 4, 7]),
-    ("sq-ml2", ["--mesh", "{data}/unit-square-quad.xml", "--level", "6", "4:4", "2", "--problem", "sin"], [16, 8]),
+    ("sq-ml2", ["--mesh", "{data}/unit-square-quad.xml", "--level", "6", "4:4", "2", "--problem", "sin"], [16, 8, 12]),
 ]
 
 
